@@ -994,3 +994,150 @@ Section Calls2.
       rewrite Wf. exact Hstop.
   Qed.
 End Calls2.
+
+(* ====================================================================== *)
+(* closure: expressions built from the layered fragment, array / map       *)
+(* literals, parenthesised calls and niladic calls                          *)
+(* ====================================================================== *)
+Section Closure.
+  Variable E : env.
+  Hypothesis NT : no_tyerr E.
+  Hypothesis Hfix : e_fix_slice E = true.
+  Variable fx : fixes.
+
+  (* the fragment of the layered grammar, with its side conditions; [w]: in a whitespace-sensitive list *)
+  Definition base_ok (w : bool) (e : fexpr) : Prop :=
+    frag e = true /\ prec_ok e = true /\ lex_ok e = true /\ (w = true -> tight e = true) /\
+    Forall (var_in_scope E) (vars_of e).
+
+  (* An expression that is, as a whole,
+       - an expression of the layered fragment, or
+       - an array / map literal (single- or multi-line) whose items are such expressions, or
+       - a parenthesised call  (f a b ...)  whose arguments are such expressions, or
+       - a call of a function without parameters written as a bare name.
+     Literals and calls are NOT allowed as operands of operators / index / dot here (the layered
+     grammar of PrattProofs.v has no production for them). *)
+  Fixpoint item_ok (w : bool) (e : fexpr) {struct e} : Prop :=
+    let all := fix all (l : list fexpr) : Prop := match l with [] => True | x :: t => item_ok true x /\ all t end in
+    match e with
+    | FAny e' => item_ok w e'
+    | FArr items els => wf_expr (FArr items els) = true /\ all els
+    | FMap items keys vals => wf_expr (FMap items keys vals) = true /\ forallb key_text keys = true /\ all vals
+    | FGroup (FCall n args) =>
+        ident_text n = true /\ func_of E n = Some false /\ arity_wrong E n (List.length args) = false /\ all args
+    | FCall n [] => ident_text n = true /\ func_of E n = Some true
+    | _ => base_ok w e
+    end.
+
+  Definition RTH (w : bool) (lvl : nat) (e : fexpr) : Prop :=
+    RT E w (toks_of_pieces (fmt_expr fx lvl e)) (fexpr_tree e) /\ head_ok (toks_of_pieces (fmt_expr fx lvl e)).
+
+  Lemma all_Forall (P : fexpr -> Prop) l :
+    (fix all (l : list fexpr) : Prop := match l with [] => True | x :: t => P x /\ all t end) l <-> Forall P l.
+  Proof. induction l as [|x t IH]; split; intro H; [constructor | exact I | destruct H; constructor; tauto | inversion H; subst; tauto]. Qed.
+
+  Lemma base_rt w lvl e : base_ok w e -> RTH w lvl e.
+  Proof.
+    intros (Hf & Hp & Hl & Ht & Hv). split.
+    - intros st rest0 fuel Hw Hr Hws Hstop Hfuel.
+      destruct (format_parse_roundtrip E fx lvl e st rest0 fuel Hf Hp Hl NT Hfix Hv Hr) as (st' & P & Q); auto.
+      + rewrite Hw. exact Ht.
+      + rewrite Hw. exact Hws.
+      + rewrite Hw. exact Hstop.
+      + exists st'. split; [exact P | exact Q].
+    - pose proof (render_to_lexp fx e false lvl Hf Hp Hl) as Hren. cbn [wsl] in Hren. rewrite app_nil_r in Hren.
+      rewrite <- Hren. destruct (render_first (to_lexp false e)) as [r ->]. cbn [head_ok].
+      destruct (first_tok_prefix (to_lexp false e)) as [H|[H|[H|[H|[H|[H|[H|H]]]]]]]; rewrite H; exact I.
+  Qed.
+
+  Lemma toks_call lvl n args : ident_text n = true ->
+    toks_of_pieces (fmt_expr fx lvl (FCall n args)) = ident_tok n :: more_args (map (fun a => toks_of_pieces (fmt_expr fx lvl a)) args).
+  Proof.
+    intro Hn. cbn [fmt_expr]. change (T n :: ?x) with ([T n] ++ x).
+    cbn [toks_of_pieces flat_map tok_of_piece app]. rewrite (ident_text_spec n Hn). f_equal.
+    induction args as [|a r IH]; [reflexivity|]. cbn [flat_map map more_args].
+    fold (toks_of_pieces (flat_map (fun a0 => Sp :: fmt_expr fx lvl a0) r)).
+    change (Sp :: fmt_expr fx lvl a) with ([Sp] ++ fmt_expr fx lvl a).
+    rewrite <- app_assoc. unfold toks_of_pieces at 1. rewrite flat_map_app. cbn [flat_map tok_of_piece app].
+    fold (toks_of_pieces (fmt_expr fx lvl a ++ flat_map (fun a0 => Sp :: fmt_expr fx lvl a0) r)).
+    rewrite toks_app. unfold toks_of_pieces at 2. rewrite IH. reflexivity.
+  Qed.
+
+  Definition Pitem (e : fexpr) : Prop :=
+    (forall w lvl, item_ok w e -> RTH w lvl e) /\
+    match e with
+    | FCall _ args => Forall (fun a => forall lvl, item_ok true a -> RTH true lvl a) args
+    | _ => True
+    end.
+
+  Lemma item_rt_aux e : Pitem e.
+  Proof.
+    induction e as [n|b t|v q|b|e IH|items els IH|items keys vals IH|n args IH|op r IH|op w0 l r IHl IHr|l i IHl IHi|l s e IHl IHs IHe|l k IHl|l t IHl|e IH] using fexpr_ind';
+      (split; [|try exact I]); try (intros w lvl Hok; apply base_rt; exact Hok).
+    - (* Any *) intros w lvl Hok. cbn [item_ok] in Hok. apply (proj1 IH w lvl Hok).
+    - (* array literal *)
+      intros w lvl [Hwf Hall]. apply all_Forall in Hall. split.
+      + apply (array_expr_rt E NT fx w lvl items els Hwf).
+        apply Forall_forall. intros x Hx. apply (proj1 (proj1 (Forall_forall _ _) IH x Hx) true (S lvl)).
+        apply (proj1 (Forall_forall _ _) Hall x Hx).
+      + cbn [fmt_expr]. unfold fmt_array. destruct (format_multiline items); exact I.
+    - (* map literal *)
+      intros w lvl (Hwf & Hk & Hall). apply all_Forall in Hall. split.
+      + apply (map_expr_rt E NT fx w lvl items keys vals Hwf Hk).
+        apply Forall_forall. intros x Hx. apply (proj1 (proj1 (Forall_forall _ _) IH x Hx) true (S lvl)).
+        apply (proj1 (Forall_forall _ _) Hall x Hx).
+      + cbn [fmt_expr]. unfold fmt_map. destruct (format_multiline items); exact I.
+    - (* call: only the niladic form is an item by itself *)
+      intros w lvl Hok. destruct args as [|a r]; [|apply base_rt; exact Hok].
+      destruct Hok as [Hn Hfn]. split.
+      + rewrite (toks_call lvl n [] Hn). cbn [map more_args flat_map fexpr_tree]. apply niladic_call_rt; auto.
+      + rewrite (toks_call lvl n [] Hn). exact I.
+    - (* the arguments of a call *)
+      apply Forall_forall. intros a Ha lvl Hok. apply (proj1 (proj1 (Forall_forall _ _) IH a Ha) true lvl Hok).
+    - (* group: a parenthesised call, or the layered fragment *)
+      intros w lvl Hok. destruct e as [| | | | | | |n args| | | | | | |]; try (apply base_rt; exact Hok).
+      destruct Hok as (Hn & Hfn & Har & Hall). apply all_Forall in Hall. destruct IH as [_ IHargs].
+      assert (Htoks : toks_of_pieces (fmt_expr fx lvl (FGroup (FCall n args)))
+                      = mk T_LPAREN :: ident_tok n :: more_args (map (fun a => toks_of_pieces (fmt_expr fx lvl a)) args) ++ [mk T_RPAREN]).
+      { cbn [fmt_expr]. rewrite !toks_app. change (T n :: flat_map (fun a => Sp :: fmt_expr fx lvl a) args) with (fmt_expr fx lvl (FCall n args)).
+        rewrite (toks_call lvl n args Hn). reflexivity. }
+      split.
+      + rewrite Htoks. cbn [fexpr_tree].
+        apply group_call_rt; auto.
+        * rewrite map_length. exact Har.
+        * clear - IHargs Hall. induction args as [|a r IHr]; [constructor|].
+          inversion IHargs; inversion Hall; subst. cbn [map]. constructor; [|apply IHr; auto].
+          match goal with H : forall lvl, item_ok true a -> RTH true lvl a |- _ => apply H; assumption end.
+      + rewrite Htoks. exact I.
+  Qed.
+
+  (* C06, list level: every such expression round-trips as a whole, as a list item (w = true) or not *)
+  Theorem item_rt w lvl e : item_ok w e -> RTH w lvl e.
+  Proof. apply (proj1 (item_rt_aux e)). Qed.
+
+  (* expression positions parsed by parseTopLevelExpr: additionally a call with arguments
+     f a b ...  up to the end of the line (or a closing bracket) *)
+  Theorem toplevel_call_rt lvl n args st rest0 fuel outer :
+    ident_text n = true -> func_of E n = Some false -> arity_wrong E n (List.length args) = false ->
+    Forall (item_ok true) args ->
+    rest st = toks_of_pieces (fmt_expr fx lvl (FCall n args)) ++ rest0 ->
+    wss st = false :: outer -> list_end (look0 rest0) ->
+    2 * List.length (toks_of_pieces (fmt_expr fx lvl (FCall n args))) <= fuel ->
+    exists st', parse_toplevel E (parse_expr E fuel) fuel st = Some (Some (fexpr_tree (FCall n args)), st') /\ same3 st st' rest0.
+  Proof.
+    intros Hn Hfn Har Hall Hr Hw Hend Hfuel. rewrite (toks_call lvl n args Hn) in Hr, Hfuel. cbn [fexpr_tree].
+    set (ats := map (fun a => toks_of_pieces (fmt_expr fx lvl a)) args) in *.
+    assert (Hargs : forall a, In a ats -> List.length a <= List.length (more_args ats)).
+    { clear. induction ats as [|x r IH]; intros a H; [contradiction|]. cbn [more_args flat_map]. fold (more_args r).
+      simpl. rewrite app_length. destruct H as [->|H]; [lia|]. specialize (IH a H). lia. }
+    assert (Hnn : List.length ats <= List.length (more_args ats)).
+    { clear. induction ats as [|x r IH]; [simpl; lia|]. cbn [more_args flat_map]. fold (more_args r). simpl. rewrite app_length. lia. }
+    cbn [List.length] in Hfuel.
+    apply (func_call_top E NT fuel fuel n ats (map fexpr_tree args) st rest0 outer); auto.
+    - unfold ats. rewrite map_length. exact Har.
+    - unfold ats. clear - Hall NT Hfix. induction args as [|a r IH]; [constructor|]. inversion Hall; subst. cbn [map].
+      constructor; [apply item_rt; assumption | apply IH; assumption].
+    - intros a Ha. specialize (Hargs a Ha). lia.
+    - lia.
+  Qed.
+End Closure.
